@@ -847,6 +847,22 @@ def memo_tables(ctx, fn, ps):
                 lossy_ = sorted({fmt(a_) for a_ in _access_atoms(wv_, params) if (a_[0] == 'var' or (a_[0] in ('attr', 'sub') and a_[1][0] == 'var')) and _determined(a_, katoms)
                                  and not _determined(a_, inj_) and not (a_[0] == 'var' and a_[1] == 'self')})
                 if lossy_ and not module_level:
+                    # one recognisable case: the key is the position of the argument in a sorted list.  bisect_left(L, p) is constant on (l_k-1, l_k] - p == l_k still
+                    # belongs to the interval BEFORE l_k - while an entry computed with the inclusive test `x <= p` changes AT l_k: the first query of that interval
+                    # fixes the entry for p == l_k too (and the other way round for bisect_right with a strict test)
+                    for s_ in T.subterms(Kw):
+                        if s_[0] == 'call' and s_[1][0] == 'ext' and s_[1][1].split('.')[-1] in ('bisect_left', 'bisect_right', 'bisect') and len(s_[2]) == 2 and s_[2][1][0] == 'var':
+                            pv_ = s_[2][1]
+                            left_ = s_[1][1].endswith('bisect_left')
+                            incl_ = [c_ for c_ in T.subterms(wv_) if c_[0] == 'cmp' and c_[1] == '<=' and c_[3] == pv_]
+                            strict_ = [c_ for c_ in T.subterms(wv_) if c_[0] == 'cmp' and c_[1] == '<' and c_[3] == pv_]
+                            if (left_ and incl_ and not strict_) or (not left_ and strict_ and not incl_):
+                                verdict = ('unsound', Kw, ['%s at the boundary' % fmt(pv_)], '%s is constant on intervals closed on the %s while the entry, computed with `%s`, changes '
+                                           'exactly at the other end: a query inside an interval fixes the entry that a query on its boundary is then handed'
+                                           % (s_[1][1], 'right' if left_ else 'left', fmt((incl_ or strict_)[0])[:50]))
+                                break
+                    if verdict is not None:
+                        break
                     verdict = ('other', 'the key %s is a many-to-one function of %s: that every %s filed under one key gives the same entry is an argument about values, not made here'
                                % (fmt(Kw)[:60], ', '.join(lossy_), '/'.join(lossy_)))
                     break
@@ -970,6 +986,20 @@ def discarded_results(ctx, rule, prefixes, what):
     kept_figures(ctx, rule, prefixes, what)
     from .rules.c16 import late_bound_in
     fns = [fn for fn in ctx.M.all_funcs() if fn.parent is None and any(fn.path.startswith(p_) for p_ in prefixes)]
+    # any(x.step() for x in xs) / all(...) over a GENERATOR stops at the first answer that settles it: where step() changes its object, the objects after that one are
+    # never stepped.  (Over a list - any([x.step() for x in xs]) - every step runs before any() looks.)
+    from .symex import _writes_self
+    for fn in fns:
+        for n_ in ast.walk(fn.node):
+            if isinstance(n_, ast.Call) and isinstance(n_.func, ast.Name) and n_.func.id in ('any', 'all') and len(n_.args) == 1 and isinstance(n_.args[0], ast.GeneratorExp):
+                for c_ in ast.walk(n_.args[0].elt):
+                    if isinstance(c_, ast.Call) and isinstance(c_.func, ast.Attribute):
+                        tg_ = [g_ for g_ in ctx.M.cha(c_.func.attr) if not g_.is_property]
+                        if tg_ and all(_writes_self(g_) for g_ in tg_):
+                            ctx.violation(rule, what, fn.site(n_), 'READ: %s(...) over a generator stops at the first element that settles the answer, and %s, which changes its object, is then '
+                                          'never called on the remaining ones (`%s` in %s)' % (n_.func.id, c_.func.attr, ast.unparse(n_)[:80], fn.qn),
+                                          key='%s|short-circuit|%s' % (rule, fn.qn))
+                            break
     for site_, names_, src_ in late_bound_in(fns, with_yield=False):
         ctx.violation(rule, what, site_, 'the deferred step `%s` reads the loop variable%s %s at call time, i.e. after the loop has moved on: every collected callable works on the last element'
                       % (src_[:70], 's' if len(names_) > 1 else '', ', '.join(names_)), key='%s|late-binding|%s' % (rule, site_.split(':')[0]))
